@@ -20,6 +20,7 @@ CONTAINER_BLOCKS = ('Document', 'Quote', 'ListItem')
 LEAF_INLINE_BLOCKS = ('Paragraph', 'Heading', 'SetextHeading', 'TableCell')
 ONE_RAW = ('BlockCode', 'CodeFence', 'HtmlBlock', 'InlineCode', 'AutoLink', 'EscapeSequence')
 NOT_FREE_BLOCKS = ('ListItem', 'TableRow', 'TableCell', 'Document')
+SPAN_CONTAINERS = ('Strong', 'Emphasis', 'Strikethrough', 'Link', 'Image')
 
 LAST = {}
 
@@ -101,6 +102,9 @@ def tree_problem(doc):
             if klist:
                 return 'child-kind', '%s has children' % name
         elif is_span:
+            if name in SPAN_CONTAINERS and kids is None:
+                # "its children are inline (span) tokens": an empty one has an empty list, it does not turn into a leaf
+                return 'child-kind', '%s has no children list' % name
             for c in klist:
                 if isinstance(c, block_token.BlockToken) or not isinstance(c, span_token.SpanToken):
                     return 'span-holds-block', '%s holds %s' % (name, type(c).__name__)
@@ -328,6 +332,10 @@ PINNED = ['|a|b|\n|-|-|\n|c|\n', '0. a\n', '007. a\n', '`code` <http://x.y> \\* 
           '- a\n\n  b\n- > c\n', '$x$ and {{m}}\ntext\n{{/m}}\n', '[a]: /u "t"\n\n[a]\n', 'A\n===\nB\n---\n###### C\n']
 
 
+EMPTY_CONTAINERS = ['[](u) ![](s) [![](b)](u "t") [][r] ![][r]\n\n[r]: /u\n', '#\n\n##  ##\n\n-\n\n>\n\n1.\n', '|  |\n|--|\n|  |\n\n| a |\n|---|\n', '', '\n', '[r]: /u\n',
+                    '*[](u)* **![](s)** ~~[](u)~~\n', '> [](u)\n\n- ![](s)\n', '# [](u)\n\n![](s)\n===\n']
+
+
 def run(ctx):
     sz = SIZES[ctx.tier]
     rng = ctx.rng
@@ -340,6 +348,10 @@ def run(ctx):
     for i, (name, text) in enumerate(workloads.sample_files()):
         if i % ctx.nshards == ctx.shard:
             check(ctx, text, 'sample:' + name)
+    # containers with nothing in them: empty link / image text, empty cells, headings, items, quotes, the empty document
+    for i, w in enumerate(EMPTY_CONTAINERS):
+        if i % ctx.nshards == ctx.shard:
+            check(ctx, w, 'empty-containers')
     # trees more than a hundred levels deep (the walkers must not stop anywhere): nested quotes, lists, emphasis
     deep = []
     for n in (40, 99, 105, 120):
